@@ -1,5 +1,6 @@
 import Operon.Lemmas.C10
 import Operon.Lemmas.C10Conc
+import Operon.Lemmas.C10Transfer
 import Operon.Gen.GatesConsts
 import Operon.Gen.GatesTranslated
 /-!
@@ -303,6 +304,33 @@ theorem c10_membrane_active_signatures (env : Env) (m : Membrane) :
   · intro p x hx
     simp only [Membrane.forget, dictPop, List.mem_filter, decide_eq_true_eq] at hx
     exact hx.2
+
+/-- **Antibody transfer between living membranes.**  Let a donor membrane be in any state reachable by any history
+    from a state with no learned patterns (so its learned patterns form a dict), and let any recipient — whatever
+    its own rules, history and `enable_adaptive` flag — execute `import_antibodies(donor.export_antibodies())`.
+    Then EVERY signature the donor has learned or imported is itself active in the recipient, and every input such
+    a signature matches at or above the recipient's threshold is rejected by the recipient from then on (until a
+    rule is relaxed), at every time and whatever its rate limit, hook and replay memory are. -/
+theorem c10_membrane_antibody_transfer (env : Env) (donor0 : MSt) (hd : donor0.m.learned = []) (ops : List MOp)
+    (rcp : Membrane) (s : Sig) (hs : s ∈ (mrun env donor0 ops).1.m.exportAb) :
+    s ∈ (rcp.importAb (mrun env donor0 ops).1.m.exportAb).active ∧
+    (rcp.importAb (mrun env donor0 ops).1.m.exportAb).threshold = rcp.threshold ∧
+    (rcp.importAb (mrun env donor0 ops).1.m.exportAb).sigs = rcp.sigs ∧
+    ∀ (m' : Membrane) (now : Nat) (c : Str),
+      m'.active = (rcp.importAb (mrun env donor0 ops).1.m.exportAb).active → m'.threshold = rcp.threshold →
+      s.matches env c = true → rcp.threshold ≤ s.level → (m'.filter env now c).2.decision.allowed = false := by
+  have hk : KeysDistinct (mrun env donor0 ops).1.m.learned :=
+    mrun_keysDistinct env ops donor0 (by rw [hd]; simp [KeysDistinct])
+  have hact : s ∈ (rcp.importAb (mrun env donor0 ops).1.m.exportAb).active :=
+    List.mem_append_right _ (foldl_dictSet_mem_of_distinct _ hk rcp.learned s hs)
+  refine ⟨hact, rfl, rfl, ?_⟩
+  intro m' now c hsame hthr hm hlvl
+  cases ha : (m'.filter env now c).2.decision.allowed with
+  | false => rfl
+  | true =>
+    exfalso
+    have := c10_membrane_allowed_only_if_clean env m' now c ha s (by rw [hsame]; exact hact) hm
+    omega
 
 /-! ## Floods: several threads inside `_check_rate_limit` at once
 
@@ -745,6 +773,16 @@ example : m0.adaptive = true ∧ env0.compiles sSeven.pat = true ∧ sSeven ∈ 
 example : (m0.importAb [⟨[97], 1, false⟩, ⟨[98], 2, false⟩, ⟨[97], 3, false⟩]).learned =
     [⟨[97], 3, false⟩, ⟨[98], 2, false⟩] := by decide
 example : ((m0.importAb [⟨[97], 1, false⟩, ⟨[98], 2, false⟩]).forget [97]).learned = [⟨[98], 2, false⟩] := by decide
+
+/-- `c10_membrane_antibody_transfer`: a donor that learned "jail"-like pattern [97] at level 3 and imported [98]; a
+    recipient with adaptive immunity OFF and an own entry for [97] at level 1 imports the donor's export: both donor
+    antibodies are active (the own entry for [97] is replaced), and "a" is now rejected -/
+example :
+    (mrun env0 ⟨Membrane.new [] 2 true none 60, 0⟩ [.learn ⟨[97], 3, false⟩, .importAb [⟨[98], 2, false⟩]]).1.m.exportAb
+      = [⟨[97], 3, false⟩, ⟨[98], 2, false⟩] ∧
+    (((Membrane.new [] 2 false none 60).importAb [⟨[97], 1, false⟩]).importAb
+      (mrun env0 ⟨Membrane.new [] 2 true none 60, 0⟩ [.learn ⟨[97], 3, false⟩, .importAb [⟨[98], 2, false⟩]]).1.m.exportAb).learned
+      = [⟨[97], 3, false⟩, ⟨[98], 2, false⟩] := by decide
 
 /-- `c10_validators_reject_exactly`: a parser outcome other than `.other`, a document of depth 2 against
     `max_depth` 1 (rejected) and 2 (accepted) -/
